@@ -1,5 +1,6 @@
 import EmsModel.Core.Lookup
 import EmsModel.Props.C01
+import EmsModel.Lemmas.RectPoint
 /-!
 # C04 — point lookup returns exactly the lowest-indexed intersecting cell
 
@@ -148,5 +149,148 @@ example : ∃ item, getIndexForPoint exConv exPolys [1, 0] = some item ∧ item.
     exact ⟨{ linear := 0, native := exConv.windIndex none 0, polygon := exPolys[0]?.join },
       by simp [getIndexForPoint, h], rfl⟩
 example : getIndexForPoint exConv exPolys (hitSet (fun p q => pointInPoly q p) exPolys (5, 1)) = none := by decide +kernel
+
+/-! ### CF 1-D grids: the lookup with no geometric oracle left
+
+For the cells of a CF 1-D grid the exact closed point-in-polygon test of `Core/Geom.lean` (the predicate
+GEOS is compared with on every generated point) is *proved* to be interval containment in the cell's two
+bounds (`Ems.pip_rect`), so the lookup theorems above specialise to statements about the dataset's bounds
+alone: the cell found is the row-major least `(j, i)` whose latitude bounds contain the point's y and whose
+longitude bounds contain its x; nothing is found iff no such cell exists. Bounds may run either way on
+either axis; they must be non-degenerate (`b.1 ≠ b.2`). -/
+
+/-- the exact predicate, with the argument order of `hitSet` -/
+def exactIntersects (p : Poly) (q : Pt) : Bool := pointInPoly q p
+
+/-- no zero-width cell -/
+def NonDegenerate (b : List (Rat × Rat)) : Prop := ∀ p ∈ b, p.1 ≠ p.2
+
+/-- cell `(j, i)` contains the point: its two bounds intervals do -/
+def cellContains (lonb latb : List (Rat × Rat)) (pt : Pt) (j i : Nat) : Prop :=
+  ∃ (hj : j < latb.length) (hi : i < lonb.length),
+    between pt.1 lonb[i].1 lonb[i].2 = true ∧ between pt.2 latb[j].1 latb[j].2 = true
+
+theorem rect_contains_iff (xb yb : Rat × Rat) (q : Pt) (hx : xb.1 ≠ xb.2) (hy : yb.1 ≠ yb.2) :
+    exactIntersects (rect xb yb) q = (between q.1 xb.1 xb.2 && between q.2 yb.1 yb.2) :=
+  pip_rect xb yb q hx hy
+
+/-- the spatial-index hits on a CF 1-D grid are exactly the row-major positions of the cells whose bounds
+contain the point -/
+theorem cf1d_hit_iff (lonb latb : List (Rat × Rat)) (hx : NonDegenerate lonb) (hy : NonDegenerate latb)
+    (pt : Pt) (n : Nat) :
+    n ∈ hitSet exactIntersects (cf1dPolys lonb latb) pt ↔
+      ∃ j i, n = j * lonb.length + i ∧ cellContains lonb latb pt j i := by
+  rw [mem_hitSet]
+  constructor
+  · rintro ⟨p, hp, hin⟩
+    have hlt : n < latb.length * lonb.length := by
+      rw [← cf1dPolys_length]; exact (List.getElem?_eq_some_iff.mp hp).1
+    have hnx : 0 < lonb.length := by
+      rcases Nat.eq_zero_or_pos lonb.length with h | h
+      · rw [h] at hlt; simp at hlt
+      · exact h
+    have hj : n / lonb.length < latb.length := by
+      rw [Nat.div_lt_iff_lt_mul hnx]; exact hlt
+    have hi : n % lonb.length < lonb.length := Nat.mod_lt _ hnx
+    have hn : n = n / lonb.length * lonb.length + n % lonb.length := by
+      rw [Nat.mul_comm]; exact (Nat.div_add_mod n lonb.length).symm
+    have hat := cf1dPolys_at lonb latb _ _ hj hi
+    rw [← hn, hp] at hat
+    have hpe : p = rect lonb[n % lonb.length] latb[n / lonb.length] := by
+      simpa using hat
+    subst hpe
+    rw [rect_contains_iff _ _ _ (hx _ (List.getElem_mem hi)) (hy _ (List.getElem_mem hj))] at hin
+    simp only [Bool.and_eq_true] at hin
+    exact ⟨_, _, hn, hj, hi, hin.1, hin.2⟩
+  · rintro ⟨j, i, rfl, hj, hi, h1, h2⟩
+    refine ⟨_, cf1dPolys_at lonb latb j i hj hi, ?_⟩
+    rw [rect_contains_iff _ _ _ (hx _ (List.getElem_mem hi)) (hy _ (List.getElem_mem hj))]
+    simp [h1, h2]
+
+/-- **CF 1-D lookup, found.** Whatever order the spatial index reports its hits in, the cell returned is a
+cell whose bounds contain the point, and its linear index is the least among all such cells. -/
+theorem cf1d_lookup_spec (c : Conv) (lonb latb : List (Rat × Rat)) (hx : NonDegenerate lonb)
+    (hy : NonDegenerate latb) (pt : Pt) (hits : List Nat)
+    (hperm : hits.Perm (hitSet exactIntersects (cf1dPolys lonb latb) pt)) (item : LookupItem)
+    (h : getIndexForPoint c (cf1dPolys lonb latb) hits = some item) :
+    (∃ j i, item.linear = j * lonb.length + i ∧ cellContains lonb latb pt j i) ∧
+    ∀ j' i', cellContains lonb latb pt j' i' → item.linear ≤ j' * lonb.length + i' := by
+  obtain ⟨⟨p, hp, hin⟩, hle⟩ := lookup_least exactIntersects c _ pt hits hperm item h
+  constructor
+  · exact (cf1d_hit_iff lonb latb hx hy pt item.linear).mp ((mem_hitSet _ _ _ _).mpr ⟨p, hp, hin⟩)
+  · intro j' i' hc
+    have hm := (cf1d_hit_iff lonb latb hx hy pt (j' * lonb.length + i')).mpr ⟨j', i', rfl, hc⟩
+    obtain ⟨q, hq, hqi⟩ := (mem_hitSet _ _ _ _).mp hm
+    exact hle _ q hq hqi
+
+/-- **CF 1-D lookup, nothing found** iff no cell's bounds contain the point: a point outside every cell
+yields no result, never a nearest cell. -/
+theorem cf1d_lookup_none_iff (c : Conv) (lonb latb : List (Rat × Rat)) (hx : NonDegenerate lonb)
+    (hy : NonDegenerate latb) (pt : Pt) (hits : List Nat)
+    (hperm : hits.Perm (hitSet exactIntersects (cf1dPolys lonb latb) pt)) :
+    getIndexForPoint c (cf1dPolys lonb latb) hits = none ↔ ∀ j i, ¬ cellContains lonb latb pt j i := by
+  rw [lookup_none_iff exactIntersects c _ pt hits hperm]
+  constructor
+  · intro h j i hc
+    have hm := (cf1d_hit_iff lonb latb hx hy pt (j * lonb.length + i)).mpr ⟨j, i, rfl, hc⟩
+    obtain ⟨q, hq, hqi⟩ := (mem_hitSet _ _ _ _).mp hm
+    rw [h _ q hq] at hqi; exact Bool.noConfusion hqi
+  · intro h n p hp
+    cases hi : exactIntersects p pt with
+    | false => rfl
+    | true =>
+      obtain ⟨j, i, _, hc⟩ := (cf1d_hit_iff lonb latb hx hy pt n).mp ((mem_hitSet _ _ _ _).mpr ⟨p, hp, hi⟩)
+      exact absurd hc (h j i)
+
+/-- **The hits on a CF 1-D grid are a function of the bounds alone**: the hit set of the exact test on the
+cell polygons equals `cf1dHits`, the interval-containment specification. -/
+theorem cf1d_hits_eq (lonb latb : List (Rat × Rat)) (hx : NonDegenerate lonb) (hy : NonDegenerate latb)
+    (pt : Pt) : hitSet exactIntersects (cf1dPolys lonb latb) pt = cf1dHits lonb latb pt := by
+  have key : ∀ n, n ∈ hitSet exactIntersects (cf1dPolys lonb latb) pt ↔ n ∈ cf1dHits lonb latb pt := by
+    intro n
+    rw [cf1d_hit_iff lonb latb hx hy pt n]
+    simp only [cf1dHits, List.mem_filter, List.mem_range]
+    constructor
+    · rintro ⟨j, i, rfl, hj, hi, h1, h2⟩
+      have hnx : 0 < lonb.length := by omega
+      have hdiv : (j * lonb.length + i) / lonb.length = j := by
+        rw [Nat.mul_comm, Nat.mul_add_div hnx, Nat.div_eq_of_lt hi]; simp
+      have hmod : (j * lonb.length + i) % lonb.length = i := by
+        rw [Nat.mul_comm, Nat.mul_add_mod, Nat.mod_eq_of_lt hi]
+      refine ⟨?_, ?_⟩
+      · calc j * lonb.length + i < j * lonb.length + lonb.length := by omega
+          _ = (j + 1) * lonb.length := by rw [Nat.add_mul]; simp
+          _ ≤ latb.length * lonb.length := Nat.mul_le_mul_right _ hj
+      · rw [hdiv, hmod]; simp [hj, hi, h1, h2]
+    · rintro ⟨hlt, hc⟩
+      have hnx : 0 < lonb.length := by
+        rcases Nat.eq_zero_or_pos lonb.length with h | h
+        · rw [h] at hlt; simp at hlt
+        · exact h
+      have hj : n / lonb.length < latb.length := by rw [Nat.div_lt_iff_lt_mul hnx]; exact hlt
+      have hi : n % lonb.length < lonb.length := Nat.mod_lt _ hnx
+      refine ⟨n / lonb.length, n % lonb.length, ?_, hj, hi, ?_⟩
+      · rw [Nat.mul_comm]; exact (Nat.div_add_mod n lonb.length).symm
+      · simpa [hj, hi] using hc
+  -- two sublists of `range` with the same members
+  unfold hitSet cf1dHits
+  rw [cf1dPolys_length]
+  apply List.filter_congr
+  intro n hn
+  have k := key n
+  simp only [hitSet, cf1dHits, List.mem_filter, cf1dPolys_length] at k
+  rw [Bool.eq_iff_iff]
+  constructor
+  · intro h; exact (k.mp ⟨hn, h⟩).2
+  · intro h; exact (k.mpr ⟨hn, h⟩).2
+
+example : cf1dHits [(0, 2), (2, 4)] [(4, 2), (2, 0)] (2, 3) = [0, 1] := by decide +kernel
+
+/-! non-vacuity: a 2 x 2 grid with a north-to-south latitude axis; the point (2, 3) lies on the meridian
+shared by the two cells of the northern row, which is row 0 -/
+example : NonDegenerate [((0 : Rat), (2 : Rat)), (2, 4)] ∧ NonDegenerate [((4 : Rat), (2 : Rat)), (2, 0)] := by
+  constructor <;> intro p hp <;> simp at hp <;> rcases hp with rfl | rfl <;> decide
+example : hitSet exactIntersects (cf1dPolys [(0, 2), (2, 4)] [(4, 2), (2, 0)]) (2, 3) = [0, 1] := by decide +kernel
+example : cellContains [(0, 2), (2, 4)] [(4, 2), (2, 0)] (2, 3) 0 1 := ⟨by decide, by decide, by decide +kernel, by decide +kernel⟩
 
 end Ems.C04
